@@ -25,24 +25,24 @@ Proof. intros; simpl. apply no_single_all. Qed.
    every) one-member union. *)
 Lemma simplify_containers_no_single_lemma : forall t, no_single (simplify_containers true t).
 Proof.
-  unfold simplify_containers. induction t using ty_ind'; simpl; try exact I.
-  - assert (F : Forall no_single (norm_union (map (visit (sc_union true) sc_generic TName id_kind) ts))).
-    { apply norm_union_elems.
-      - intros l N. apply no_single_union in N. tauto.
-      - apply Forall_forall. intros x Hx. apply in_map_iff in Hx. destruct Hx as [t [<- Hin]].
-        rewrite Forall_forall in H. auto. }
-    remember (norm_union (map (visit (sc_union true) sc_generic TName id_kind) ts)) as l. clear Heql.
+  unfold simplify_containers. set (V := visit (sc_union true) sc_generic TName id_kind).
+  assert (Ch : forall ps, Forall (fun t => no_single (V t)) ps -> Forall no_single (map V ps)).
+  { intros ps F. apply Forall_forall. intros x Hx. apply in_map_iff in Hx. destruct Hx as [t [<- Hin]].
+    rewrite Forall_forall in F. auto. }
+  induction t using ty_ind'; try exact I.
+  - change (no_single (sc_union true (norm_union (map V ts)))).
+    assert (F : Forall no_single (norm_union (map V ts))).
+    { apply norm_union_elems; [|apply Ch; assumption].
+      intros l N. apply (proj1 (no_single_union _)) in N. tauto. }
+    remember (norm_union (map V ts)) as l. clear Heql.
     unfold sc_union. destruct l as [|x [|y r]].
-    + apply no_single_union. split; [simpl; lia | constructor].
+    + apply (proj2 (no_single_union _)). split; [simpl; lia | constructor].
     + inversion F; assumption.
-    + apply no_single_union. split; [simpl; lia | assumption].
-  - unfold id_kind, sc_generic. destruct (forallb is_any _); [exact I|].
-    apply no_single_gen. apply Forall_forall. intros x Hx. apply in_map_iff in Hx.
-    destruct Hx as [t [<- Hin]]. rewrite Forall_forall in H. auto.
-  - apply no_single_tup. apply Forall_forall. intros x Hx. apply in_map_iff in Hx.
-    destruct Hx as [t [<- Hin]]. rewrite Forall_forall in H. auto.
-  - apply no_single_call. apply Forall_forall. intros x Hx. apply in_map_iff in Hx.
-    destruct Hx as [t [<- Hin]]. rewrite Forall_forall in H. auto.
+    + apply (proj2 (no_single_union _)). split; [simpl; lia | assumption].
+  - change (no_single (sc_generic k c (map V ps))). unfold sc_generic.
+    destruct (forallb is_any (map V ps)); [exact I|]. apply (proj2 (no_single_gen _ _ _)). auto.
+  - change (no_single (TTup k c (map V ps))). apply (proj2 (no_single_tup _ _ _)). auto.
+  - change (no_single (TCall k c (map V ps))). apply (proj2 (no_single_call _ _ _)). auto.
 Qed.
 
 (* Without it: Union[List[Any], list] -> UnionType((list,)) *)
@@ -54,3 +54,58 @@ Proof.
   - simpl. repeat split; lia.
   - vm_compute. intros [N _]. apply N. reflexivity.
 Qed.
+
+(* ================================================================== idempotence fails: witnesses *)
+(* deps: object, NoneType, int, typing.Sequence, list(Sequence) *)
+Definition w_deps : hier := [(1, []); (2, [1]); (8, [1]); (9, [1]); (10, [9])].
+Definition w_fn (ret : ty) : unit_ := mkUnit [] [] [mkFunc 0 0 [mkSig [] None None ret []]].
+Definition w_const (t : ty) : unit_ := mkUnit [mkConst 0 t] [] [].
+
+(* def f() -> Union[object, List[int]]: object becomes Any only after the unions were simplified *)
+Definition w1 := w_fn (TUnion [TName KClass 1; TGen KClass 10 [TName KClass 8]]).
+Definition w1_once := w_fn (TUnion [TAny; TGen KClass 10 [TName KClass 8]]).
+Definition w1_twice := w_fn TAny.
+(* def f() -> Union[List[object], Sequence]: the late SimplifyContainers exposes list next to its base *)
+Definition w2 := w_fn (TUnion [TGen KClass 10 [TName KClass 1]; TName KClass 9]).
+Definition w2_once := w_fn (TUnion [TName KClass 10; TName KClass 9]).
+Definition w2_twice := w_fn (TName KClass 9).
+(* x: Union[List[object], list]: one-member union left by the last SimplifyContainers *)
+Definition w3 := w_const (TUnion [TGen KClass 10 [TName KClass 1]; TName KClass 10]).
+Definition w3_once := w_const (TUnion [TName KClass 10]).
+Definition w3_twice := w_const (TName KClass 10).
+
+Lemma lossless_pytype_opts : lossless pytype_opts.
+Proof. repeat split. Qed.
+
+Lemma w_ranked : forall u, u_classes u = [] -> ranked (hier_of u ++ w_deps).
+Proof. intros u E. unfold hier_of. rewrite E. apply rankedb_ranked. vm_compute. reflexivity. Qed.
+
+Lemma optimize_idempotent_refuted_lemma : exists o Hd u u1 u2,
+  lossless o /\ ranked (hier_of u ++ Hd) /\ wf_unit KClass u /\
+  opt o Hd u = Some u1 /\ opt o Hd u1 = Some u2 /\ u1 <> u2.
+Proof.
+  exists pytype_opts, w_deps, w1, w1_once, w1_twice.
+  split; [apply lossless_pytype_opts|]. split; [apply w_ranked; reflexivity|].
+  split; [unfold wf_unit; vm_compute; repeat constructor|].
+  split; [vm_compute; reflexivity|]. split; [vm_compute; reflexivity | discriminate].
+Qed.
+
+Lemma optimize_idempotent_refuted_subclass_lemma :
+  ranked (hier_of w2 ++ w_deps) /\ wf_unit KClass w2 /\
+  opt pytype_opts w_deps w2 = Some w2_once /\ opt pytype_opts w_deps w2_once = Some w2_twice /\
+  w2_once <> w2_twice.
+Proof.
+  split; [apply w_ranked; reflexivity|].
+  split; [unfold wf_unit; vm_compute; repeat constructor|].
+  split; [vm_compute; reflexivity|]. split; [vm_compute; reflexivity | discriminate].
+Qed.
+
+(* the one-member union: present exactly in the variant without the collapsing VisitUnionType *)
+Lemma single_member_union_unfixed_lemma :
+  run_passes false pytype_opts w_deps passes w3 = Some w3_once /\
+  run_passes false pytype_opts w_deps passes w3_once = Some w3_twice /\ w3_once <> w3_twice.
+Proof. split; [vm_compute; reflexivity|]. split; [vm_compute; reflexivity | discriminate]. Qed.
+Lemma single_member_union_fixed_lemma :
+  run_passes true pytype_opts w_deps passes w3 = Some w3_twice /\
+  run_passes true pytype_opts w_deps passes w3_twice = Some w3_twice.
+Proof. split; vm_compute; reflexivity. Qed.
